@@ -16,6 +16,7 @@ import Emu2a.Model.Build
 import Emu2a.Model.Format
 import Emu2a.Model.Flow
 import Emu2a.Spec.RunSpec
+import Emu2a.Spec.TuiSpec
 open Emu2a
 
 def stepFuel : Nat := 100000
@@ -37,6 +38,9 @@ structure St where
   m : Machine
   bspec : BusSpec := BusSpec.new
   board : BSpec := BSpec.new
+  tui : Option Tui.State := none                       -- C17: the session model (none = dead)
+  tspec : Option (Machine × Option Tui.Note) := none    -- C17: what the specification says about machine + notification
+  tfs : List (String × String) := []                   -- C17: the files the session can load
 
 def Emu2a.BusSpec.str (s : BusSpec) : String :=
   s!"ram={ramHash s.ram} out={hex2 s.outFE}{hex2 s.outFF} in={hex2 s.in0}{hex2 s.in1}{hex2 s.in2}{hex2 s.in3} mask={hex2 s.mask} do={hex2 s.do1}{hex2 s.do2} di={hex2 s.di1}"
@@ -145,6 +149,87 @@ def cliLine (src : Option String) (n : Nat) (ints resets : List Nat) (bytes : Li
     | some (k, mx, st, fe, ff) => s!"exit={o.exit} cycles={k}/{mx} state={st.str} fe={fe.toNat} ff={ff.toNat}"
     | none => s!"exit={o.exit}"
   | none => "bad-op"
+
+/-! C17 helpers -/
+def hexStr (s : String) : String := if s.isEmpty then "-" else Asm.hexOf s
+def hexChars (cs : List Char) : String := hexStr (String.ofList cs)
+
+def fnvStr (s : String) : UInt64 := s.toUTF8.foldl (fun h b => fnvStep h (BitVec.ofNat 8 b.toNat)) fnvInit
+
+def noteStr : Option Tui.Note → String
+  | none => "-"
+  | some (.invalid l) => "invalid:" ++ hexStr l
+  | some .loadFail => "loadfail"
+
+def tuiDump (t : Tui.State) : String :=
+  let e := t.ed
+  let comps := match e.comps with
+    | none => "-"
+    | some (l, i) => s!"{i}:" ++ ",".intercalate (l.map hexChars)
+  let last := match e.hist.getLast? with | some l => hexStr l | none => "-"
+  let hidx := match e.hidx with | some i => toString i | none => "-"
+  s!"in={hexChars e.input} idx={e.idx} hist={e.hist.length}:{last}:{fnvStr ("\n".intercalate e.hist)} hidx={hidx} comps={comps} note={noteStr t.note} part={if t.showMemory then "M" else "R"} auto={b01 t.auto} | {t.m.str}"
+
+def keyOf (code : String) : Option Tui.Code :=
+  match code with
+  | "enter" => some (.key .enter) | "tab" => some (.key .tab) | "backtab" => some (.key .backtab)
+  | "backspace" => some (.key .backspace) | "home" => some (.key .home) | "end" => some (.key .«end»)
+  | "left" => some (.key .left) | "right" => some (.key .right) | "up" => some (.key .up) | "down" => some (.key .down)
+  | "delete" => some (.key .delete) | "insert" => some .insert | "esc" => some .esc
+  | "pageup" => some .pageUp | "pagedown" => some .pageDown | "null" => some .null
+  | _ =>
+    if code.startsWith "f" then ((code.drop 1).toString.toNat?).map .f
+    else if code.startsWith "c" then
+      match parseHexBytes (let h := (code.drop 1).toString.toList; if h.length % 2 = 1 then '0' :: h else h) with
+      | some bs =>
+        let n := bs.foldl (fun a b => a * 256 + b.toNat) 0
+        if n.isValidChar then some (.key (.char (Char.ofNat n))) else none
+      | none => none
+    else none
+
+def modsOf (s : String) : Tui.Mods :=
+  { ctrl := s.contains 'c', shift := s.contains 's', alt := s.contains 'a' }
+
+def fcOf (ws : List String) : Option (Option (List String)) :=
+  match ws with
+  | [] => some none
+  | [f] =>
+    if f = "fc=" then some (some [])
+    else if f.startsWith "fc=" then ((f.drop 3).toString.splitOn ",").mapM unhexE |>.map some
+    else none
+  | _ => none
+
+def cmdStr : Tui.ParseRes → String
+  | .invalid => "invalid"
+  | .unknown => "float?"
+  | .cmd c => match c with
+    | .load p => "load " ++ hexChars p
+    | .reg r v => s!"reg {["FC", "FD", "FE", "FF"].getD r "?"} {v}"
+    | .irg v => s!"irg {v}"
+    | .temp b => s!"temp {b}" | .i1 b => s!"i1 {b}" | .i2 b => s!"i2 {b}"
+    | .j1 b => s!"j1 {b01 b}" | .j2 b => s!"j2 {b01 b}"
+    | .uio1 b => s!"uio1 {b01 b}" | .uio2 b => s!"uio2 {b01 b}" | .uio3 b => s!"uio3 {b01 b}"
+    | .show mem => if mem then "show M" else "show R"
+    | .next n => s!"next {n}"
+    | .quit => "quit"
+
+def rowStr (row : List Tui.Cell) : String :=
+  s!"row={hexChars (row.map (·.sym))} st={String.ofList (row.map (·.mark))}"
+
+def faultStr : Tui.Fault → String
+  | .panic _ => "panic" | .nofuel => "nofuel" | .unknown w => "unknown:" ++ w.replace " " "_"
+
+def drawOp (s : St) (full : Bool) (w h : String) : St × String :=
+  match s.tui, w.toNat?, h.toNat? with
+  | none, _, _ => (s, "dead")
+  | some t, some w, some h =>
+    match Tui.inputWidth w h with
+    | none => (s, "ok small")
+    | some iw =>
+      match Tui.renderRow iw t.ed.input t.ed.idx with
+      | .ok row => (s, if full then "ok " ++ rowStr row else "ok")
+      | .error _ => ({ s with tui := none, tspec := none }, "panic")
+  | _, _, _ => (s, "bad-op")
 
 def applyOp (s : St) (ws : List String) : St × String :=
   let m := s.m
@@ -398,6 +483,46 @@ def applyOp (s : St) (ws : List String) : St × String :=
     | some src, some n, some ints, some resets, some bytes, some rest, some xfe, some xff =>
       (s, cliLine src n ints resets bytes rest (wv = "1") xsv xfe xff)
     | _, _, _, _, _, _, _, _ => bad
+  | ["tnew"] => ({ s with tui := some Tui.State.new, tspec := some (Tui.State.new.m, none) }, "ok")
+  | ["tfile", name, content] =>
+    match unhexE name with
+    | some n =>
+      let rest := s.tfs.filter (·.1 ≠ n)
+      if content = "!" then ({ s with tfs := rest }, "ok")
+      else match unhexE content with
+        | some c => ({ s with tfs := (n, c) :: rest }, "ok")
+        | none => (s, "bad-op")       -- not UTF-8: the generator does not produce such files
+    | none => bad
+  | ["cmd", hx] => match unhexE hx with | some l => (s, cmdStr (Tui.parseCmd l.toList)) | none => bad
+  | ["spec.cmd", hx] => match unhexE hx with | some l => (s, cmdStr (TuiSpec.parse l.toList)) | none => bad
+  | "key" :: code :: mods :: rest =>
+    match s.tui, keyOf code, fcOf rest with
+    | none, _, _ => (s, "dead")
+    | some t, some c, some fc =>
+      let fs := fun p => (s.tfs.find? (·.1 = p)).map (·.2)
+      let md := modsOf mods
+      -- the specification's view (machine + notification), from the text in the input field
+      let tspec := match s.tspec with
+        | some (sm, sn) =>
+          (match TuiSpec.afterEvent sm sn t.ed.input c md fs with
+           | .ok r => some r
+           | .error _ => none)
+        | none => none
+      match Tui.handleEvent t c md fc fs with
+      | .ok (t', q) => ({ s with tui := some t', tspec := tspec }, s!"q={b01 q}")
+      | .error f => ({ s with tui := none, tspec := none }, faultStr f)
+    | _, _, _ => bad
+  | ["tdump"] => match s.tui with | some t => (s, tuiDump t) | none => (s, "dead")
+  | ["spec.tmach"] =>
+    match s.tui, s.tspec with
+    | none, _ => (s, "dead")
+    | some _, some (m, n) => (s, s!"note={noteStr n} | {m.str}")
+    | some _, none => (s, "unknown")
+  | ["spec.tnopanic"] => (s, "ok")
+  | ["spec.cmdsafe", _] => (s, "ok")
+  | ["spec.tsafe"] => match s.tui with | some _ => (s, "inside") | none => (s, "dead")
+  | ["draw", w, h] => drawOp s true w h
+  | ["drawp", w, h] => drawOp s false w h
   | ["d"] => (s, m.str)
   | ["ram"] => (s, ramStr m.core.bus.ram)
   | ["done"] => (s, b01 m.core.done)
